@@ -1146,7 +1146,7 @@ SMALL = ["RZ", "X", "GP", "CNOT"]
 def composition_obligation(tag, n, length, alphabet, labels, diags):
     name = f"C74/decomposition:convert_to_mbqc_formalism/composition[{tag}]"
     desc = (f"real body with callee contracts for the patterns: every tape of <= {length} operations over {alphabet} on {n} logical wire(s) "
-            f"{labels}, every wire assignment, sample() / sample(wires = every ordered non-empty subset): same gates on consistently tracked "
+            f"{labels}, diagonalize_mcms in {list(diags)}, every wire assignment, sample() / sample(wires = every ordered non-empty subset): same gates on consistently tracked "
             "wire chains, final sample reads the requested logical wires in the requested order")
 
     def fn():
@@ -1211,7 +1211,12 @@ def end_to_end_obligation(seed, tier):
             circuits.append((ops, qp.sample() if mw is None else qp.sample(wires=mw), k % 3 == 0))
         for ops, mp, diag in circuits:
             tape = QuantumScript(ops, [mp])
-            (new_tape,), _p = D.convert_to_mbqc_formalism(tape, diagonalize_mcms=diag)
+            r = call(lambda: D.convert_to_mbqc_formalism(tape, diagonalize_mcms=diag))
+            if r[0] != "ok":
+                inp = dict(operations=[repr(o) for o in ops], measurement=repr(mp), diagonalize_mcms=diag)
+                return Outcome(REFUTED, "real-conversion+float-interpreter", f"conversion of a supported circuit raised {r[1]}", witness=dict(inputs=inp),
+                               replay=dict(confirmed=True, observed=f"raises {r[1]}", expected="a converted tape", inputs=inp))
+            (new_tape,), _p = r[1]
             want = list(mp.wires) if len(mp.wires) else list(tape.wires)
             ref = MState(ring)
             for o in ops:
@@ -1271,14 +1276,20 @@ def add_conversion_half(plan, tier, seed):
         plan.fn_under_contract(DEC_FILE, f)
 
     thorough = tier != "quick"
-    comps = [("1-wire,len<=3,full-gate-set", 1, 3, [k for k in FULL if k != "CNOT"], [0], (False, True)),
-             ("2-wires,len<=2,full-gate-set", 2, 2, FULL, [0, 1], (False, True)),
-             ("2-wires,len<=2,full-gate-set,labels-b-a", 2, 2, FULL, ["b", "a"], (False,)),
-             ("2-wires,len<=3,reduced-gate-set", 2, 4 if thorough else 3, SMALL, [1, 0], (False, True)),
-             ("3-wires,len<=2,reduced-gate-set", 3, 3 if thorough else 2, SMALL, ["q", 0, 5], (False, True))]
+    NOC = [k for k in FULL if k != "CNOT"]
+    both = (False, True)
+    if thorough:
+        comps = [("1-wire,len<=3,full-gate-set", 1, 3, NOC, [0], both), ("2-wires,len<=2,full-gate-set", 2, 2, FULL, [0, 1], both),
+                 ("2-wires,len<=2,full-gate-set,labels-b-a", 2, 2, FULL, ["b", "a"], both),
+                 ("2-wires,len<=4,reduced-gate-set", 2, 4, SMALL, [1, 0], both), ("3-wires,len<=3,reduced-gate-set", 3, 3, SMALL, ["q", 0, 5], both)]
+    else:
+        comps = [("1-wire,len<=2,full-gate-set", 1, 2, NOC, [0], both), ("1-wire,len<=3,reduced-gate-set", 1, 3, ["RZ", "H", "X", "I0", "GP"], [3], both),
+                 ("2-wires,len<=2,full-gate-set", 2, 2, FULL, [0, 1], (False,)),
+                 ("2-wires,len<=2,reduced-gate-set,labels-b-a", 2, 2, SMALL + ["H", "I0"], ["b", "a"], (True,)),
+                 ("2-wires,len<=3,reduced-gate-set", 2, 3, SMALL, [1, 0], both), ("3-wires,len<=2,reduced-gate-set", 3, 2, SMALL, ["q", 0, 5], (False,))]
     for tag, n, ln, alpha, labels, diags in comps:
         plan.add(composition_obligation(tag, n, ln, alpha, labels, diags))
-        plan.size_bounds.append(f"convert_to_mbqc_formalism composition [{tag}]: tapes of <= {ln} operations over {alpha} on {n} wire(s) {labels}; "
+        plan.size_bounds.append(f"convert_to_mbqc_formalism composition [{tag}]: tapes of <= {ln} operations over {alpha} on {n} wire(s) {labels}, diagonalize_mcms in {list(diags)}; "
                                 "all wire assignments and all ordered read-out subsets; angles symbolic")
     plan.add(end_to_end_obligation(seed, tier))
 
